@@ -44,8 +44,7 @@ def run_item(it):
             with open(cfg, "w") as f:
                 f.write(it["cfg"])
             argv += ["-c", cfg]
-        if os.path.exists(dst):
-            os.remove(dst)
+        # the output file of the previous run is left where it is: a conversion replaces it, whatever it held
         saved = (sys.stdout, sys.stderr)
         sys.stdout, sys.stderr = io.StringIO(), io.StringIO()
         try:
